@@ -55,6 +55,15 @@ var cancelShapes = []shapeDef{
 	{name: "loop_in_do_finally", body: "do\n  loop\n    x = x + 1\n  end\nfinally\n  x = 0\nend\n"},
 	{name: "loop_with_defer", body: "do\n  defer println(\"deferred\")\n  loop\n    x = x + 1\n  end\nend\n"},
 	{name: "loop_with_inner_catch", defs: "def thrower(a: Int): Int\n  throw unchecked a if a % 3 == 0\n  a\nend\n", body: "loop\n  do\n    x = thrower(x + 1)\n  catch Int() as e\n    x = e + 1\n  end\nend\n"},
+	{name: "loop_continue", body: "loop\n  continue\nend\n"},
+	{name: "while_continue", body: "while true\n  x = x + 1\n  continue if x > 3\n  x = x - 1\nend\n"},
+	{name: "until_continue", body: "until false\n  continue\nend\n"},
+	{name: "for_range_continue", body: "for i in 1...\n  continue if i > 2\n  x = x + i\nend\n"},
+	{name: "for_growing_list", body: "gq := [1]\nfor n in gq\n  gq << n + 1\nend\n"},
+	{name: "for_growing_list_continue", body: "gq := [1]\nfor n in gq\n  gq << n + 1\n  continue\nend\n"},
+	{name: "for_growing_list_in_method", defs: "def grow_forever(a: Int): Int\n  gq := [a]\n  for n in gq\n    gq << n + 1\n  end\n  gq.length\nend\n", body: "x = grow_forever(1)\n"},
+	{name: "for_string_growing", body: "gs := [\"a\"]\nfor s in gs\n  gs << s\nend\n"},
+	{name: "labelled_continue_outer", body: "$outer: loop\n  loop\n    continue[outer]\n  end\nend\n"},
 	{name: "chan_pop", body: "ch := Channel::[Int](0)\nx = try ch.pop\n"},
 	{name: "chan_pop_result", body: "ch := Channel::[Int](1)\nr := <<ch\nx = 1\n"},
 	{name: "chan_push_full", body: "ch := Channel::[Int](1)\nch << 1\nch << 2\n"},
